@@ -20,19 +20,39 @@
 //	MeshToHierarchy loses/duplicates no face, reproduces the containment
 //	forest and classifies lattice points by the even-odd rule. 2D likewise
 //	with squares, plus the 2D diagnostics on all patterns of an octagon.
+//
+// (D) Repair on chains of near-duplicates (copies 0.9 eps apart, chain ends
+//
+//	farther than eps apart) inside the instrumented build, where the order in
+//	which Repair visits the vertices is an explorer-owned decision
+//	(checks/sched/c11.go): merging must be transitive for every visiting order
+//	with at most B departures from the canonical one.
 package main
 
 import (
+	"encoding/json"
 	"fmt"
 	"math"
+	"os/exec"
+	"path/filepath"
 	"sort"
+	"strings"
 
 	"github.com/unixpickle/model3d/model2d"
 	"github.com/unixpickle/model3d/model3d"
 
 	"verif/lib/cat"
 	"verif/lib/ev"
+	"verif/lib/scen"
+	"verif/lib/schedrun"
 )
+
+func chainFamily(sc string) string {
+	if i := strings.Index(sc, ":"); i >= 0 {
+		return sc[:i]
+	}
+	return sc
+}
 
 type c3 = model3d.Coord3D
 type tri = [3]c3
@@ -854,10 +874,25 @@ func checkNesting2D(r *ev.Run, parent []int, axis, dir, corner int) {
 
 func main() {
 	r := ev.Start("C11", "exploration")
-	r.Rule("distinct_nontrivial = damaged patterns (some diagnostic fires), complete closed meshes with flipped faces through the normal repairs, jitter patterns that move at least one vertex copy, and forests with more than one component")
+	r.Rule("distinct_nontrivial = damaged patterns (some diagnostic fires), complete closed meshes with flipped faces through the normal repairs, jitter patterns that move at least one vertex copy, forests with more than one component, and repair-chain scenarios with more than one vertex visiting order. Repair-chain scenarios (checks/sched/c11.go) run in the instrumented build: every map-iteration order of Repair with at most B departures from the canonical order, B as reported")
 	r.Assume("Orientable is judged only when no edge has more than two faces", "jitter offsets are < eps/4 so that all copies of a vertex are within eps/2 of each other and distinct vertices are farther than 2 eps apart",
 		"nested boxes do not touch", "RepairNormals epsilon is far below the smallest feature")
 	if r.Replay != "" {
+		var sc schedrun.ReplayCase
+		r.LoadReplay(&sc)
+		if sc.Scenario != "" {
+			schedrun.Build(false)
+			cj, _ := json.Marshal(sc.Choices)
+			if sc.Choices == nil {
+				cj = []byte("[]")
+			}
+			out, err := exec.Command(filepath.Join(ev.Work(), "bin", "sched"), "replay", sc.Scenario, string(cj)).CombinedOutput()
+			fmt.Print(string(out))
+			if err != nil {
+				r.Violation(chainFamily(sc.Scenario)+"/"+sc.Kind, "replayed execution violates: "+string(out), sc)
+			}
+			r.Finish()
+		}
 		var c mcase
 		r.LoadReplay(&c)
 		switch c.Kind {
@@ -988,6 +1023,21 @@ func main() {
 		two := append(sq(0, 0), sq(1, 1)...)
 		patterns(8, 3, func(p []int) { check2DDiagnostics(r, "two squares sharing a vertex", two, p, false) })
 	})
+	// (D) chains of near-duplicates under every vertex visiting order
+	schedrun.Build(false)
+	bound := 1
+	if r.Thorough() {
+		bound = 2
+	}
+	part := scen.RunBatch(bound, 300000, schedrun.List("C11"))
+	scen.Report(r, part, chainFamily)
+	var execs int64
+	for _, x := range part {
+		execs += x.Executions
+	}
+	r.Set("repair_chain_scenarios", len(part))
+	r.Set("repair_chain_visiting_orders_executed", execs)
+	r.Set("repair_chain_deviation_bound", bound)
 	r.Finish()
 }
 
